@@ -16,10 +16,21 @@ use std::collections::BTreeSet;
 /// drive one iterator by a random interleaving of next() and nth(n) against a model cursor
 fn drive<K: Kmer, I: Iterator<Item = K> + ExactSizeIterator>(
     c: &mut Case,
+    it: I,
+    windows: &[S],
+    what: &str,
+) -> Result<(u64, u64, u64), String> {
+    drive_rng::<K, I>(&c.rng, it, windows, what)
+}
+
+fn drive_rng<K: Kmer, I: Iterator<Item = K> + ExactSizeIterator>(
+    rng: &crate::util::Rng,
     mut it: I,
     windows: &[S],
     what: &str,
 ) -> Result<(u64, u64, u64), String> {
+    struct C2<'a> { rng: &'a crate::util::Rng }
+    let c = C2 { rng };
     let total = windows.len();
     ensure!(it.len() == total, "{}: len() reports {} up front, the node has {} k-mers", what, it.len(), total);
     let (lo, hi) = it.size_hint();
@@ -206,6 +217,62 @@ fn c18_case<K: Kmer + Send + Sync>(c: &mut Case, gc: &GCase) -> Result<(), Strin
     Ok(())
 }
 
+/// several threads iterate the SAME graph at the same time (what the parallel chunked MPHF builder
+/// does), each with its own random next()/nth() interleaving incl. long skips; every item is checked
+fn c18_concurrent<K: Kmer + Send + Sync>(c: &mut Case) -> Result<(), String> {
+    let k = K::k();
+    let nn = c.rng.range(2, 6);
+    let mut b: BaseGraph<K, u8> = BaseGraph::new(true);
+    let mut seen: BTreeSet<S> = BTreeSet::new();
+    while b.len() < nn {
+        let len = k + *c.rng.pick(&[16usize, 20, 31, 32, 33, 60, 100]);
+        let s = c.rng.bases(len, 4);
+        if s.windows(k).all(|w| !seen.contains(w)) && s.windows(k).collect::<BTreeSet<_>>().len() == len - k + 1 {
+            for w in s.windows(k) {
+                seen.insert(w.to_vec());
+            }
+            b.add(&s, Exts::empty(), 0u8);
+        }
+    }
+    let g = b.finish_serial();
+    let wins = graph_windows(&g);
+    let nthreads = if c.lane_miri { 2 } else { *c.rng.pick(&[2usize, 4, 8]) };
+    let rounds = if c.lane_miri { 2 } else { 40 };
+    let seeds: Vec<u64> = (0..nthreads).map(|_| c.rng.next()).collect();
+    let gref = &g;
+    let wref = &wins;
+    let results: Vec<Result<(u64, u64), String>> = std::thread::scope(|sc| {
+        let hs: Vec<_> = seeds
+            .iter()
+            .map(|sd| {
+                let sd = *sd;
+                sc.spawn(move || {
+                    let rng = crate::util::Rng::new(sd);
+                    let mut calls = 0u64;
+                    let mut long = 0u64;
+                    for _ in 0..rounds {
+                        let node = rng.below(gref.len());
+                        let it = gref.get_node_kmer(node).into_iter();
+                        let (a, _, l) = drive_rng::<K, _>(&rng, it, &wref[node], &format!("concurrent iteration, node {} ({} k-mers)", node, wref[node].len()))?;
+                        calls += a;
+                        long += l;
+                    }
+                    Ok((calls, long))
+                })
+            })
+            .collect();
+        hs.into_iter().map(|h| h.join().unwrap_or_else(|_| Err("iterator thread panicked".to_string()))).collect()
+    });
+    for r in results {
+        let (calls, long) = r?;
+        c.count("concurrent_iterator_calls", calls);
+        c.count("concurrent_long_skips", long);
+    }
+    c.count("concurrent_iteration_cases", 1);
+    c.nontrivial(H::new().u(c.idx).u(nn as u64).u(nthreads as u64).get());
+    Ok(())
+}
+
 pub const RULE_C18: &str = "case = graph built from a hostile read set (direct pipeline) plus a synthetic multi-node graph with node lengths K..K+70; every node's iterator is driven twice by a random interleaving of next() and nth(n) with n in {0, 0-4, 5-12, remaining-1, remaining, remaining+1.., usize::MAX-ish, random} against a model cursor until 4 pulls after the end; checked: item == model window, None exactly when the model is exhausted, no Some after the end, len()/size_hint up front; iteration over &graph == all windows once in order; Mphf::from_chunked_iterator and _parallel (2,3,8 threads) are bijections; distinct = hash(read set, synthetic node count); non-trivial = more than one node";
 
 pub fn run_c18(ctx: &Ctx) {
@@ -214,7 +281,13 @@ pub fn run_c18(ctx: &Ctx) {
         let gc = gen_gcase(c);
         with_graph_k!(gc.kidx, K => c18_case::<K>(c, &gc))
     });
+    ctx.run_group("concurrent", ctx.n(2_000, 100_000), false, |c| match c.rng.below(3) {
+        0 => c18_concurrent::<Kmer8>(c),
+        1 => c18_concurrent::<Kmer16>(c),
+        _ => c18_concurrent::<Kmer32>(c),
+    });
     if !ctx.is_miri() {
+        ctx.require("concurrent_long_skips", 1000);
         ctx.require("skips_reaching_past_the_end", 1000);
         ctx.require("long_skips", 1000);
         ctx.require("last_node_iterators_driven", 1000);
